@@ -497,6 +497,95 @@ fn builder_session(c: &Corpus, which: Impl, compressed: bool, style: u64, total_
     Ok((sent, datagrams))
 }
 
+/// The tokio adaptor also implements the synchronous `std::io::Read` / `Write` (a non-blocking `try_recv` read).
+/// Datagrams of every size are read through it with caller slices of arbitrary sizes; what comes out must be the
+/// concatenation of what the peer sent. Each datagram is followed by a 4-byte sentinel datagram, so a datagram
+/// that was cut short shows up as "sentinel before all bytes" instead of a wait that never ends.
+fn tokio_sync_read_session(c: &Corpus, compressed: bool, total_bytes: usize, r: &mut Rng, p: &mut Part) -> Result<(usize, usize), String> {
+    use std::io::{Read, Write};
+    let rt = tokio::runtime::Builder::new_current_thread().enable_all().build().map_err(|e| e.to_string())?;
+    let mut pr = pair().map_err(|e| format!("socket setup: {e}"))?;
+    let sock = pr.conn_sock.take().unwrap();
+    sock.set_nonblocking(true).map_err(|e| e.to_string())?;
+    let label = format!("tokio-adaptor-sync-read-{}", mode_name(compressed));
+    let sentinel = [if compressed { 1u8 } else { 4 }, 3, 201, 3];
+    pr.peer.set_read_timeout(Some(Duration::from_secs(5))).map_err(|e| e.to_string())?;
+    let peer = &pr.peer;
+    rt.block_on(async {
+        let ts = tokio::net::UdpSocket::from_std(sock).map_err(|e| e.to_string())?;
+        let mut stream = tokio_impl::UdpStream::from(ts);
+        let mut sent = 0usize;
+        let mut datagrams = 0usize;
+        while sent < total_bytes {
+            let d = make_datagram(c, r, compressed, 3);
+            p.distinct(&(compressed, &d));
+            peer.send(&d).map_err(|e| format!("peer send failed: {e}"))?;
+            peer.send(&sentinel).map_err(|e| format!("peer send failed: {e}"))?;
+            sent += d.len();
+            datagrams += 1;
+            let mut want = d.clone();
+            want.extend_from_slice(&sentinel);
+            let mut got: Vec<u8> = vec![];
+            let t0 = Instant::now();
+            let slice_cap = if r.chance(1, 2) { 64 } else { 2048 };
+            let slice = 1 + r.usize_below(slice_cap);
+            let mut buf = vec![0u8; slice];
+            while got.len() < want.len() {
+                if t0.elapsed() > WATCHDOG {
+                    break;
+                }
+                p.evaluations += 1;
+                match stream.read(&mut buf) {
+                    Ok(0) => tokio::time::sleep(Duration::from_micros(50)).await,
+                    Ok(n) => {
+                        got.extend_from_slice(&buf[..n]);
+                        if got.ends_with(&sentinel) && got.len() < want.len() {
+                            break; // the sentinel overtook bytes of the datagram: they will never come
+                        }
+                    },
+                    Err(e) if e.kind() == ErrorKind::WouldBlock => tokio::time::sleep(Duration::from_micros(50)).await,
+                    Err(e) => return Err(format!("{label}: read failed: {e}")),
+                }
+            }
+            if got != want {
+                if got.len() < want.len() && !got.ends_with(&sentinel) {
+                    return Err(format!("{label}: neither the datagram nor its sentinel arrived completely within the watchdog ({} of {} bytes)", got.len(), want.len()));
+                }
+                let at = got.iter().zip(want.iter()).position(|(a, b)| a != b).unwrap_or(got.len().min(want.len()));
+                p.violation(
+                    "C08/tokio/sync-read/bytes-differ",
+                    format!("{label}: after {sent} bytes of traffic a {}-byte datagram read through std::io::Read with a {slice}-byte slice yields {} bytes before its sentinel (first difference at {at})", d.len(), got.len().saturating_sub(4)),
+                    json!({"mode": mode_name(compressed), "cumulative_bytes": sent, "datagram_size": d.len(), "slice": slice, "got_len": got.len()}),
+                );
+                return Ok((sent, datagrams));
+            }
+        }
+        // synchronous write: one datagram per call
+        for _ in 0..10 {
+            let d = make_datagram(c, r, compressed, 2);
+            p.evaluations += 1;
+            match stream.write(&d) {
+                Ok(n) if n == d.len() => {},
+                other => {
+                    p.violation("C08/tokio/sync-write", format!("{label}: write of a {}-byte frame returned {:?}", d.len(), other.map_err(|e| e.to_string())), json!({"len": d.len()}));
+                    break;
+                },
+            }
+            let mut b = [0u8; 2048];
+            match peer.recv(&mut b) {
+                Ok(n) if b[..n] == d[..] => {},
+                Ok(n) => {
+                    p.violation("C08/tokio/sync-write", format!("{label}: wrote {} bytes, the peer received a {n}-byte datagram", d.len()), json!({"len": d.len()}));
+                    break;
+                },
+                Err(e) => return Err(format!("{label}: no datagram for a synchronous write: {e}")),
+            }
+        }
+        p.distinct(&(label.clone(), sent));
+        Ok((sent, datagrams))
+    })
+}
+
 pub fn run(ctx: &mut Ctx) -> (&'static str, String, bool) {
     let c = match Corpus::load() {
         Ok(c) => c,
@@ -545,6 +634,15 @@ pub fn run(ctx: &mut Ctx) -> (&'static str, String, bool) {
             }
         }
     }
+    for compressed in MODES {
+        match tokio_sync_read_session(&c, compressed, 6120 * factor.min(12), &mut r, &mut p) {
+            Ok((s, d)) => {
+                total_sent += s;
+                total_dgrams += d;
+            },
+            Err(e) => ctx.inconclusive(format!("tokio adaptor, synchronous read, {}: {e}", mode_name(compressed))),
+        }
+    }
     ctx.extra("builder_sessions", json!(builder_sessions));
     ctx.merge(p);
     ctx.extra("sessions", json!(sessions));
@@ -555,7 +653,7 @@ pub fn run(ctx: &mut Ctx) -> (&'static str, String, bool) {
     ctx.assume("loss is decided by observing an empty kernel queue (three consecutive observations) while packets are owed, never by a timeout alone");
     (
         "exploration",
-        "real loopback UDP socket pairs; per {blocking,tokio} x {compressed,uncompressed} x 4 datagram-size styles (small, maximal incl. a single 1020-byte frame, uniform, bimodal): bursts of 1-4 datagrams of 1..n frames until several times the 6120-byte buffer has passed through, every delivered packet compared with the isolated decoding of the sent frames; then 40 writes (a third of them maximum-size list packets) observed as exactly one datagram each; the same traffic (maximal and bimodal sizes) through connections made by Builder::udp(..).connect_blocking()/connect_async(), one datagram at a time with an in-order sentinel deciding loss; distinct = distinct (mode, datagram) sent by the peer".into(),
+        "real loopback UDP socket pairs; per {blocking,tokio} x {compressed,uncompressed} x 4 datagram-size styles (small, maximal incl. a single 1020-byte frame, uniform, bimodal): bursts of 1-4 datagrams of 1..n frames until several times the 6120-byte buffer has passed through, every delivered packet compared with the isolated decoding of the sent frames; then 40 writes (a third of them maximum-size list packets) observed as exactly one datagram each; the same traffic (maximal and bimodal sizes) through connections made by Builder::udp(..).connect_blocking()/connect_async(), one datagram at a time with an in-order sentinel deciding loss; the tokio adaptor's synchronous std::io::Read / Write with caller slices of 1..2048 bytes; distinct = distinct (mode, datagram) sent by the peer".into(),
         false,
     )
 }
